@@ -121,3 +121,191 @@ Proof.
            rewrite repl_repl in Hwc2, Hs2 by reflexivity. tauto.
     + inversion Hren; subst sch2. apply Hnoren; [reflexivity|]. unfold vpatch, vmod. rewrite En. reflexivity.
 Qed.
+
+(* ---------------------------------------------------------------- the whole loop *)
+Definition rho_upd (cs0 : list crec) (all done : list (Z * cpatch)) (rho0 : Z -> option str) : Z -> option str :=
+  fun j => match assoc j done with
+           | Some u => match rev_patch cs0 all u with Ok (Some x) => x | _ => rho0 j end
+           | None => rho0 j
+           end.
+
+Lemma assoc_app : forall {A} j (a b : list (Z * A)),
+  assoc j (a ++ b) = match assoc j a with Some v => Some v | None => assoc j b end.
+Proof.
+  intros A j a b. induction a as [|[k v] t IH]; [reflexivity|]. cbn. destruct (k =? j); [reflexivity | exact IH].
+Qed.
+
+Lemma nodup_keys_mid : forall {A} (a : list (Z * A)) k v b, nodup_keys (a ++ (k, v) :: b) = true -> assoc k a = None.
+Proof.
+  intros A a k v b. induction a as [|[k' v'] t IH]; intro H; [reflexivity|]. cbn in H.
+  destruct (assoc k' (t ++ (k, v) :: b)) eqn:E; [discriminate|]. cbn.
+  destruct (Z.eqb_spec k' k) as [Ek|Ek]; [|apply IH; exact H].
+  subst k'. rewrite assoc_app in E. destruct (assoc k t); [discriminate|]. cbn in E. rewrite Z.eqb_refl in E. discriminate.
+Qed.
+
+Lemma rowfun_nil : forall {A} (g : A -> crec -> crec) cs, map (rowfun g []) cs = cs.
+Proof. intros A g cs. unfold rowfun. cbn. apply map_id. Qed.
+
+Lemma upd_loop_cons : forall m all k u rest sch log,
+  upd_loop m all ((k, u) :: rest) sch log =
+  match find_col k (m_cols m) with
+  | None => Err E_no_row
+  | Some r =>
+    match find_table (c_parent r) (m_tables m) with
+    | None => Err E_no_table
+    | Some t =>
+      match rev_patch (m_cols m) all u with
+      | Err e => Err e
+      | Ok prev =>
+        match (if patch_empty (schema_patch_of u prev) then Ok (sch, [])
+               else do_modify (t_tableId t) (c_colId r) (schema_patch_of u prev) sch) with
+        | Err e => Err e
+        | Ok (sch1, l1) =>
+          match rename_step (t_tableId t) (c_colId r) (u_colId u) sch1 with
+          | Err e => Err e
+          | Ok (sch2, l2) => upd_loop m all rest sch2 (log ++ l1 ++ l2)
+          end
+        end
+      end
+    end
+  end.
+Proof. reflexivity. Qed.
+
+Lemma upd_loop_sync : forall base ts cs0 all rho0, wf_t ts -> wf_c cs0 ->
+  forall l done sch log sch' log',
+    nodup_keys (done ++ l) = true ->
+    wf_c (map (rowfun vpatch done) cs0) ->
+    Sync base sch ts (map (rowfun vpatch done) cs0) (rho_upd cs0 all done rho0) ->
+    upd_loop {| m_tables := ts; m_cols := cs0 |} all l sch log = Ok (sch', log') ->
+    wf_c (map (rowfun vpatch (done ++ l)) cs0) /\
+    Sync base sch' ts (map (rowfun vpatch (done ++ l)) cs0) (rho_upd cs0 all (done ++ l) rho0).
+Proof.
+  intros base ts cs0 all rho0 Hwt Hwc0 l. induction l as [|[k u] rest IH]; intros done sch log sch' log' Hnd Hwc Hs Hloop.
+  - cbn in Hloop. inversion Hloop; subst. rewrite app_nil_r. tauto.
+  - rewrite upd_loop_cons in Hloop. cbn [m_cols m_tables] in Hloop.
+    destruct (find_col k cs0) as [r0|] eqn:Ef; [|discriminate]. apply find_col_in in Ef. destruct Ef as [Hr0 Hk].
+    destruct (find_table (c_parent r0) ts) as [t|] eqn:Et; [|discriminate]. apply find_table_some in Et. destruct Et as [Ht Htid].
+    destruct (rev_patch cs0 all u) as [prev|] eqn:Erp; [|discriminate].
+    destruct (if patch_empty (schema_patch_of u prev) then Ok (sch, [])
+              else do_modify (t_tableId t) (c_colId r0) (schema_patch_of u prev) sch) as [[sch1 l1]|] eqn:Em; [|discriminate].
+    destruct (rename_step (t_tableId t) (c_colId r0) (u_colId u) sch1) as [[sch2 l2]|] eqn:Er; [|discriminate].
+    pose proof (nodup_keys_mid done k u rest Hnd) as Hkd.
+    assert (Hin : In r0 (map (rowfun vpatch done) cs0)).
+    { apply in_map_iff. exists r0. split; [|exact Hr0]. unfold rowfun. rewrite Hk, Hkd. reflexivity. }
+    destruct (upd_entry base ts _ _ t r0 u prev sch sch1 sch2 l1 l2 Hwt Hwc Hs Ht Hin (eq_sym Htid) Em Er) as [Hwc1 Hs1].
+    assert (Hcur : repl (c_id r0) (vpatch u r0) (map (rowfun vpatch done) cs0) = map (rowfun vpatch (done ++ [(k, u)])) cs0).
+    { unfold repl. rewrite map_map. apply map_ext_in. intros r Hr. unfold rowfun. rewrite assoc_app. cbn [assoc].
+      destruct (assoc (c_id r) done) as [v|] eqn:Ea.
+      - assert (Hne : c_id r <> k) by (intro E; rewrite E, Hkd in Ea; discriminate).
+        cbn [vpatch c_id]. rewrite Hk. destruct (Z.eqb_spec (c_id r) k); [contradiction|]. reflexivity.
+      - rewrite Hk. destruct (Z.eqb_spec (c_id r) k) as [E|E].
+        + assert (r = r0) by (apply (nodup_ids_unique cs0); try assumption; [apply Hwc0 | congruence]). subst r.
+          rewrite Z.eqb_sym. destruct (Z.eqb_spec (c_id r0) k); [reflexivity | contradiction].
+        + rewrite Z.eqb_sym. destruct (Z.eqb_spec (c_id r) k); [contradiction | reflexivity]. }
+    rewrite Hcur in Hwc1, Hs1.
+    replace (done ++ (k, u) :: rest) with ((done ++ [(k, u)]) ++ rest) in * by (rewrite <- app_assoc; reflexivity).
+    apply (IH (done ++ [(k, u)]) sch2 (log ++ l1 ++ l2) sch' log'); try assumption.
+    apply (sync_rho_ext _ _ _ _ _ _ Hs1). intros r _. unfold rho_upd, rho_set. rewrite assoc_app. cbn [assoc].
+    rewrite Hk. destruct (Z.eqb_spec (c_id r) k) as [E|E].
+    + rewrite E, Hkd, Z.eqb_refl, Erp. destruct prev as [x|]; reflexivity.
+    + destruct (assoc (c_id r) done); [reflexivity|]. destruct (Z.eqb_spec k (c_id r)); [congruence | reflexivity].
+Qed.
+
+(* ---------------------------------------------------------------- CUpdateColumns *)
+Lemma patch_id : forall u r, c_id (patch_crec u r) = c_id r.
+Proof. reflexivity. Qed.
+
+Lemma core_patch : forall u r, u_parent u = None -> core (vpatch u r) = core (patch_crec u r).
+Proof. intros u r H. unfold core, vpatch, patch_crec. cbn. rewrite H. reflexivity. Qed.
+
+Lemma upd_pre_split : forall upds s, cop_pre (CUpdateColumns upds) s = true ->
+  (forall k u, In (k, u) upds -> u_parent u = None) /\
+  (forall r, In r (m_cols (st_meta s)) ->
+     let x := rev_after upds r in
+     (x = 0 \/ exists rx, find_col x (m_cols (st_meta s)) = Some rx) /\
+     (renamed_in (m_cols (st_meta s)) upds x = false \/
+      exists u, assoc (c_id r) upds = Some u /\ exists y, u_rev u = Some y)).
+Proof.
+  intros upds s H. cbn [cop_pre] in H. apply andb_true_iff in H. destruct H as [H1 H2]. split.
+  - intros k u Hin. apply (proj1 (forallb_forall _ _) H1) in Hin. cbn in Hin. destruct (u_parent u); [discriminate | reflexivity].
+  - intros r Hr x. apply (proj1 (forallb_forall _ _) H2) in Hr. fold x in Hr. apply andb_true_iff in Hr. destruct Hr as [Ha Hb]. split.
+    + apply orb_true_iff in Ha. destruct Ha as [Ha|Ha]; [left; apply Z.eqb_eq; exact Ha|]. right.
+      destruct (find_col x (m_cols (st_meta s))) as [rx|]; [exists rx; reflexivity | discriminate].
+    + apply orb_true_iff in Hb. destruct Hb as [Hb|Hb]; [left; apply negb_true_iff; exact Hb|]. right.
+      destruct (assoc (c_id r) upds) as [u|]; [|discriminate]. exists u. split; [reflexivity|].
+      destruct (u_rev u) as [y|]; [exists y; reflexivity | discriminate].
+Qed.
+
+Lemma colId_after : forall cs upds x rx, find_col x cs = Some rx ->
+  c_colId (rowfun patch_crec upds rx) =
+  match assoc x upds with
+  | Some ux => match u_colId ux with Some n => n | None => c_colId rx end
+  | None => c_colId rx
+  end.
+Proof.
+  intros cs upds x rx H. apply find_col_in in H. destruct H as [_ Hid]. unfold rowfun. rewrite Hid.
+  destruct (assoc x upds); reflexivity.
+Qed.
+
+Lemma coupled_update_columns : forall base upds s s' log,
+  InvD base s -> cop_pre (CUpdateColumns upds) s = true -> coupled (CUpdateColumns upds) s = Ok (s', log) -> InvD base s'.
+Proof.
+  intros base upds s s' log [Hwt Hwc Hnd Hns Hall Hbd Hs] Hpre H.
+  destruct (upd_pre_split upds s Hpre) as [Hnopar Hrev].
+  set (cs := m_cols (st_meta s)) in *. set (ts := m_tables (st_meta s)) in *.
+  unfold coupled in H. destruct (nodup_keys upds) eqn:Hnk; [|discriminate]. cbn [negb] in H.
+  rewrite (meta_eta (st_meta s)) in H. fold cs ts in H.
+  destruct (upd_loop {| m_tables := ts; m_cols := cs |} upds upds (st_schema s) []) as [[sch' lg]|] eqn:El; [|discriminate].
+  cbn [apply_m m_cols m_tables] in H.
+  destruct (forallb (fun ku => match find_col (fst ku) cs with Some _ => true | None => false end) upds) eqn:Hex; [|discriminate].
+  inversion H; subst s'; clear H.
+  destruct (upd_loop_sync base ts cs upds (rho_of cs) Hwt Hwc upds [] (st_schema s) [] sch' lg) as [Hwcv Hsv]; try assumption.
+  - rewrite rowfun_nil. exact Hwc.
+  - rewrite rowfun_nil. apply (sync_rho_ext _ _ _ _ _ _ Hs). intros r _. reflexivity.
+  - cbn [app] in Hwcv, Hsv.
+    set (P := rowfun patch_crec upds).
+    assert (Hcs' : upd_cols upds cs = map P cs) by (rewrite upd_cols_rowmap; apply rowmap_assoc; [exact Hnk | intros; reflexivity]).
+    assert (Hcore : map core (map (rowfun vpatch upds) cs) = map core (map P cs)).
+    { rewrite !map_map. apply map_ext. intro r. unfold P, rowfun. destruct (assoc (c_id r) upds) as [u|] eqn:Ea; [|reflexivity].
+      apply core_patch. apply (Hnopar (c_id r) u). apply assoc_in. exact Ea. }
+    assert (Hwc' : wf_c (map P cs)) by (apply (wf_c_core_ext _ _ Hcore Hwcv)).
+    assert (Hfind : forall j, find_col j (map P cs) = option_map P (find_col j cs)).
+    { intro j. apply find_col_map. intro r. unfold P, rowfun. destruct (assoc (c_id r) upds); reflexivity. }
+    assert (HrevP : forall r, c_rev (P r) = rev_after upds r).
+    { intro r. unfold P, rowfun, rev_after. destruct (assoc (c_id r) upds) as [u|]; [|reflexivity]. reflexivity. }
+    constructor; cbn [st_meta st_schema m_tables m_cols]; rewrite ?Hcs'; try assumption.
+    + (* reverse pointers still resolve *)
+      intros r' Hr'. apply in_map_iff in Hr'. destruct Hr' as [r [<- Hr]]. rewrite HrevP.
+      destruct (Hrev r Hr) as [[H0|[rx Hrx]] _]; [left; exact H0|]. right. exists (P rx). split.
+      * apply in_map. apply find_col_in in Hrx. tauto.
+      * apply find_col_in in Hrx. destruct Hrx as [_ Hid]. unfold P, rowfun. destruct (assoc (c_id rx) upds); exact Hid.
+    + intros c' Hc'. apply in_map_iff in Hc'. destruct Hc' as [c [<- Hc]]. destruct (Hns c Hc) as [t [Ht Hid]].
+      exists t. split; [exact Ht|]. rewrite Hid. unfold P, rowfun. destruct (assoc (c_id c) upds) as [u|] eqn:Ea; [|reflexivity].
+      cbn. rewrite (Hnopar (c_id c) u (assoc_in _ _ _ Ea)). reflexivity.
+    + intros t Ht. destruct (Hall t Ht) as [c [Hc1 Hc2]]. exists (P c). split; [apply in_map; exact Hc1|].
+      rewrite <- Hc2. unfold P, rowfun. destruct (assoc (c_id c) upds) as [u|] eqn:Ea; [|reflexivity].
+      cbn. rewrite (Hnopar (c_id c) u (assoc_in _ _ _ Ea)). reflexivity.
+    + apply (sync_rho_ext _ _ _ _ (rho_upd cs upds upds (rho_of cs))); [apply (sync_core_ext _ _ _ _ _ _ Hcore Hsv)|].
+      intros r' Hr'. apply in_map_iff in Hr'. destruct Hr' as [r [<- Hr]].
+      assert (HidP : c_id (P r) = c_id r) by (unfold P, rowfun; destruct (assoc (c_id r) upds); reflexivity).
+      rewrite HidP. unfold rho_of at 1. rewrite Hfind, (find_col_some (c_id r) cs r (wc_ids _ Hwc) Hr eq_refl). cbn [option_map].
+      rewrite HrevP, Hfind. destruct (Hrev r Hr) as [Hres Hren]. cbn zeta in Hres, Hren.
+      (* the same name on both sides *)
+      assert (Hkeep :
+                forall x, renamed_in cs upds x = false ->
+                          option_map c_colId (option_map P (find_col x cs)) = option_map c_colId (find_col x cs)).
+      { intros x Hnr. destruct (find_col x cs) as [rx|] eqn:Ex; [|reflexivity]. cbn. f_equal.
+        unfold P. rewrite (colId_after cs upds x rx Ex). unfold renamed_in in Hnr. rewrite Ex in Hnr.
+        destruct (assoc x upds) as [ux|]; [|reflexivity]. destruct (u_colId ux) as [n|]; [|reflexivity].
+        apply negb_false_iff in Hnr. apply str_eqb_eq in Hnr. exact Hnr. }
+      unfold rho_upd. unfold rev_after in *. destruct (assoc (c_id r) upds) as [u|] eqn:Ea.
+      * unfold rev_patch. destruct (u_rev u) as [y|] eqn:Ey.
+        -- destruct (Z.eqb_spec y 0) as [Hy0|Hy0].
+           ++ subst y. rewrite (find_col_zero _ Hwc). reflexivity.
+           ++ destruct Hres as [H0|[rx Hrx]]; [contradiction|]. unfold new_colId_of. rewrite Hrx. cbn.
+              f_equal. apply (colId_after cs upds y rx Hrx).
+        -- destruct Hren as [Hnr|[u' [Hu' [y Hy]]]]; [|congruence].
+           rewrite (Hkeep _ Hnr). unfold rho_of. rewrite (find_col_some (c_id r) cs r (wc_ids _ Hwc) Hr eq_refl). reflexivity.
+      * destruct Hren as [Hnr|[u' [Hu' _]]]; [|discriminate].
+        rewrite (Hkeep _ Hnr). unfold rho_of. rewrite (find_col_some (c_id r) cs r (wc_ids _ Hwc) Hr eq_refl). reflexivity.
+Qed.
